@@ -125,6 +125,7 @@ def remap_case(ctx, suite, nq, nb, specs, perm, pre_passes=()):
         mapper = HardcodedMapper(nq, Mapping(list(perm)))
     except ValueError:
         return None
+    views(c)        # views of this very object before mapping: whatever the library caches per circuit is now populated
     err, post = implrun.run_impl(c, ["map", list(perm)])
     return case, c, pre_ser, pre, err, post, f, before_copy, before_stmts
 
